@@ -7,7 +7,7 @@ W="/tmp/mt-$ID-$$"
 mkdir -p "$W/verif"
 if [ -n "$MUTEST_HEAD" ]; then
   # committed state of /verif only (builder agents may be mid-edit in the working tree) + the build caches
-  git -C /verif archive HEAD | tar -x -C "$W/verif" && rsync -a /verif/lean/.lake "$W/verif/lean/" && rsync -a /verif/lean/Logrange/Generated "$W/verif/lean/Logrange/" && mkdir -p "$W/verif/.cache" && ln -s /verif/.cache/gocache "$W/verif/.cache/gocache"
+  git -C /verif archive HEAD | tar -x -C "$W/verif" && rsync -a /verif/lean/.lake "$W/verif/lean/" && rsync -a /verif/lean/Logrange/Generated "$W/verif/lean/Logrange/" && { [ -d /verif/lean/Logrange/Translated ] && rsync -a /verif/lean/Logrange/Translated "$W/verif/lean/Logrange/"; true; } && mkdir -p "$W/verif/.cache" && ln -s /verif/.cache/gocache "$W/verif/.cache/gocache"
 else
   rsync -a --exclude .cache --exclude .git --exclude replays /verif/ "$W/verif/"
 fi
